@@ -74,9 +74,10 @@ $(B)/verif/harness/%.o: harness/%.c
 	@mkdir -p $(dir $@)
 	$(CC) -std=gnu11 -g -fno-omit-frame-pointer -Wall -Wextra -Wno-unused-parameter -Wno-unused-function -Wno-format-truncation -Wno-misleading-indentation -Wno-maybe-uninitialized $(OWNFLAGS) $(DEFS) $(INCS) -I. -MMD -MP -c $< -o $@
 
-HEXTRA_$(H) ?=
+HSRCS ?=
+HOBJS := $(patsubst %.c,$(B)/verif/%.o,$(HSRCS))
 harness: $(B)/bin/$(H)
-$(B)/bin/$(H): $(B)/verif/harness/$(H).o $(MC_OBJS) $(REF_OBJS) $(REPO_OBJS)
+$(B)/bin/$(H): $(B)/verif/harness/$(H).o $(HOBJS) $(MC_OBJS) $(REF_OBJS) $(REPO_OBJS)
 	@mkdir -p $(dir $@)
 	$(CC) $(LFLAGS) $(LDEXTRA) -o $@ $^ $(LIBS)
 
